@@ -1564,6 +1564,10 @@ class Interp:
         raise Unsupported("str method %s on %r" % (name, recv))
 
     def list_method(self, recv, name, args):
+        if name == "retain":
+            keep = [x for x in list(recv) if self.branch(to_bool(self.call_value(args[0], [x])))]
+            recv[:] = keep
+            return ()
         if name == "len" or name == "count":
             return len(recv)
         if name == "is_empty":
@@ -1753,6 +1757,11 @@ class Interp:
         raise Unsupported("list method " + name)
 
     def map_method(self, recv, name, args):
+        if name == "retain":
+            for k_ in list(recv.keys()):
+                if not self.branch(to_bool(self.call_value(args[0], [k_, recv[k_]]))):
+                    del recv[k_]
+            return ()
         if name in ("get", "get_mut"):
             k = args[0]
             if is_sym(k):
